@@ -11,6 +11,8 @@ import (
 	"go/types"
 	"math/big"
 	"strings"
+
+	"golang.org/x/tools/go/packages"
 )
 
 func (v *Verifier) evalCall(fr *Frame, st *State, x *ast.CallExpr) Val {
@@ -70,17 +72,17 @@ func (v *Verifier) evalCall(fr *Frame, st *State, x *ast.CallExpr) Val {
 				if pv.Loc != nil {
 					return Scalar{c.True(), types.Typ[types.Bool]}
 				}
-				if v.assumingEnsures > 0 && !pv.Ref.IsConst() && !pv.Ref.open {
+				if v.assumingEnsures > 0 && !pv.Ref.IsConst() && !pv.Ref.open && pv.Ref.Op == "var" {
 					return Scalar{c.And(c.Not(pv.Nil), c.Eq(pv.Ref, v.freshRef(st))), types.Typ[types.Bool]}
 				}
-				return Scalar{c.And(c.Not(pv.Nil), c.ILt(c.Inti(0), pv.Ref)), types.Typ[types.Bool]}
+				return Scalar{c.And(c.Not(pv.Nil), c.ILt(c.Inti(0), pv.Ref), c.ILt(pv.Ref, v.allocMark(st))), types.Typ[types.Bool]}
 			}
 			a := v.evalSpec(fr, st, x.Args[0]).(SliceVal)
-			if v.assumingEnsures > 0 && !a.Ref.IsConst() && !a.Ref.open {
-				// a callee-allocated array: pin it to a new concrete reference on the caller's side
+			if v.assumingEnsures > 0 && !a.Ref.IsConst() && !a.Ref.open && a.Ref.Op == "var" {
+				// a callee-allocated array: it takes the caller's allocation watermark
 				return Scalar{c.Eq(a.Ref, v.freshRef(st)), types.Typ[types.Bool]}
 			}
-			return Scalar{c.ILt(c.Inti(0), a.Ref), types.Typ[types.Bool]}
+			return Scalar{c.And(c.ILt(c.Inti(0), a.Ref), c.ILt(a.Ref, v.allocMark(st))), types.Typ[types.Bool]}
 		case "disjoint": // disjoint(s, t): the two slices share no element
 			a := v.evalSpec(fr, st, x.Args[0]).(SliceVal)
 			b := v.evalSpec(fr, st, x.Args[1]).(SliceVal)
@@ -89,6 +91,18 @@ func (v *Verifier) evalCall(fr *Frame, st *State, x *ast.CallExpr) Val {
 			if r, ok := v.ghostBuiltin(fr, st, id.Name, x); ok {
 				return r
 			}
+		case "emod": // emod(a, m): Euclidean remainder (SMT-LIB mod; math/big.Int.Mod)
+			a := v.asScalar(v.evalSpec(fr, st, x.Args[0]), x.Pos())
+			m := v.asScalar(v.coerce(v.evalSpec(fr, st, x.Args[1]), a.Typ), x.Pos())
+			if a.T.Sort != IntSort || m.T.Sort != IntSort {
+				panic(unsupportedf(x.Pos(), "emod needs mathematical integers"))
+			}
+			return Scalar{c.IMod(a.T, m.T), a.Typ}
+		case "bigVal": // bigVal(x): the integer denoted by *big.Int x (mode bigmath)
+			ref, _ := v.bigRef(v.evalSpec(fr, st, x.Args[0]), x.Pos())
+			return Scalar{v.bigVal(st, ref), types.Typ[types.Int]}
+		case "bytesVal": // bytesVal(s): big-endian value of a byte slice (uninterpreted)
+			return Scalar{v.bytesValue(st, v.evalSpec(fr, st, x.Args[0]).(SliceVal)), types.Typ[types.Int]}
 		case "bigBit": // bigBit(x, i): two's-complement bit i of *big.Int x, as bool
 			v.needIntIdx(x.Pos(), "bigBit")
 			ref, _ := v.bigRef(v.evalSpec(fr, st, x.Args[0]), x.Pos())
@@ -143,6 +157,24 @@ func (v *Verifier) evalCall(fr *Frame, st *State, x *ast.CallExpr) Val {
 	if id, ok := x.Fun.(*ast.Ident); ok && v.lookupObj(fr, id) == nil {
 		if def := v.prog.defs[fr.pkg.PkgPath+"."+id.Name]; def != nil {
 			return v.expandDef(fr, st, def, x)
+		}
+	}
+	if sel, ok := x.Fun.(*ast.SelectorExpr); ok {
+		// qualified contract definition: pkg.def(args)
+		if id, ok := sel.X.(*ast.Ident); ok && v.lookupObj(fr, id) == nil {
+			if pn, ok := v.lookupByName(fr, id.Name).(*types.PkgName); ok {
+				if def := v.prog.defs[pn.Imported().Path()+"."+sel.Sel.Name]; def != nil {
+					// evaluate the body in the defining package's scope
+					savePkg := fr.pkg
+					if dp := v.prog.pkgs[pn.Imported().Path()]; dp != nil {
+						vals := make([]ast.Expr, 0)
+						_ = vals
+						r := v.expandDefIn(fr, st, def, x, dp)
+						fr.pkg = savePkg
+						return r
+					}
+				}
+			}
 		}
 	}
 	info := fr.pkg.TypesInfo
@@ -504,7 +536,9 @@ func (v *Verifier) evalBuiltin(fr *Frame, st *State, name string, x *ast.CallExp
 		t := v.typeOf(fr, x.Args[0])
 		if isBigInt(t) {
 			p := v.newBigPtr(st, types.NewPointer(t))
-			if v.eng.IntIdx() {
+			if v.bigMath {
+				v.setBigVal(st, p.Ref, c.Inti(0))
+			} else if v.eng.IntIdx() {
 				v.setBigBits(st, p.Ref, c.ConstArray(ArraySort(IntSort, BoolSort), c.False()))
 			}
 			return p
@@ -1063,6 +1097,9 @@ func (v *Verifier) resolveModTarget(cf *Frame, st *State, m ast.Expr, pos token.
 				keys = []string{gAtomic}
 			case "big":
 				keys = []string{gBigBits}
+				if v.bigMath {
+					keys = []string{gBigVal}
+				}
 			case "keystream":
 				keys = []string{gKsPos}
 			case "iolog":
@@ -1292,6 +1329,41 @@ func constDiff(lo, hi *Term) (int64, bool) {
 }
 
 // expandDef evaluates a contract-level definition with its parameters bound to the arguments.
+// expandDefIn expands a definition of another package: arguments are evaluated in the caller's
+// package scope, the body in the defining package's.
+func (v *Verifier) expandDefIn(fr *Frame, st *State, def *Contract, x *ast.CallExpr, dp *packages.Package) Val {
+	if len(x.Args) != len(def.LParams) {
+		panic(unsupportedf(x.Pos(), "def %s: wrong number of arguments", def.Key))
+	}
+	vals := make([]Val, len(x.Args))
+	for i, a := range x.Args {
+		vals[i] = v.evalSpec(fr, st, a)
+	}
+	saved := map[string]Val{}
+	had := map[string]bool{}
+	for i, p := range def.LParams {
+		if o, ok := fr.ghost[p.Name]; ok {
+			saved[p.Name] = o
+			had[p.Name] = true
+		}
+		fr.ghost[p.Name] = vals[i]
+	}
+	savePkg, saveScope := fr.pkg, fr.scopeAt
+	fr.pkg = dp
+	fr.scopeAt = token.NoPos
+	defer func() {
+		fr.pkg, fr.scopeAt = savePkg, saveScope
+		for _, p := range def.LParams {
+			if had[p.Name] {
+				fr.ghost[p.Name] = saved[p.Name]
+			} else {
+				delete(fr.ghost, p.Name)
+			}
+		}
+	}()
+	return v.evalSpec(fr, st, def.DefBody)
+}
+
 func (v *Verifier) expandDef(fr *Frame, st *State, def *Contract, x *ast.CallExpr) Val {
 	if len(x.Args) != len(def.LParams) {
 		panic(unsupportedf(x.Pos(), "def %s: wrong number of arguments", def.Key))
